@@ -281,7 +281,13 @@ def install(E):
             return
         ctx.lemmas_done.add(key)
         z = z3.IntToStr(v)
-        ctx.assume(z3.Implies(v >= 0, z3.And(z3.InRe(z, DIGITS), z3.StrToInt(z) == v, none_of(z, ":[]@/?#"))))
+        ctx.assume(z3.Implies(v >= 0, z3.And(z3.InRe(z, DIGITS), z3.StrToInt(z) == v, none_of(z, ":[]@/?# \r\n"))))
+        ctx.assume(z3.Implies(z3.And(v >= 0, v <= 9), z3.Length(z) == 1))
+        ctx.assume(z3.Implies(z3.And(v >= 10, v <= 99), z3.And(z3.Length(z) == 2, z3.InRe(z, z3.Concat(z3.Range("1", "9"), z3.Range("0", "9"))))))
+        ctx.assume(z3.Implies(z3.And(v >= 10, v <= 69), z3.InRe(z, z3.Concat(z3.Range("1", "6"), z3.Range("0", "9")))))
+        for k in range(1, 10):
+            ctx.assume(z3.Implies(z3.And(v >= 10 * k, v <= 10 * k + 9),
+                                  z3.And(z3.SubString(z, 0, 1) == SV(str(k)), z3.InRe(z3.SubString(z, 1, 1), z3.Range("0", "9")))))
     M["int-to-str-lemma"] = int_to_str_lemma
 
     # lower() on symbolic strings goes through the same uninterpreted function
